@@ -2,6 +2,7 @@ package rules
 
 import (
 	"go/ast"
+	"go/types"
 	"reflect"
 	"strings"
 
@@ -121,6 +122,84 @@ func reencodedTokensDropDeclarations(c *cx, id string, in func(*eng.Fn) bool) in
 			why = "the filtered attribute list is not stored back into the start element"
 		}
 		c.r.Check(id, f, "namespace declarations of re-encoded tokens", "K: a function that copies decoder tokens to its own encoder drops xmlns and xmlns:p attributes (the encoder declares the namespaces of the names itself)", f.Body.Pos(), why == "", why)
+	}
+	return n
+}
+
+// stanzaWrappersDecodeTheirPayloadAttrs (C19.54): a struct that embeds a
+// stanza type and has fields tagged `,attr` beside it asks encoding/xml for
+// attributes of the STANZA element; the encoders of such types write their
+// own attributes on the payload child (F138: commands.Response wrote node,
+// sessionid and status on <command/>, and decoding its own output gave an
+// empty response without an error). Such a type has an UnmarshalXML of its
+// own; a struct type without a name cannot have one and must not have the
+// shape.
+//
+// Returns the number of structs embedding a stanza type examined.
+func stanzaWrappersDecodeTheirPayloadAttrs(c *cx, id string) int {
+	n := 0
+	for _, pk := range c.p.Pkgs {
+		for _, file := range pk.Syntax {
+			named := map[*ast.StructType]*ast.TypeSpec{}
+			ast.Inspect(file, func(nd ast.Node) bool {
+				if ts, ok := nd.(*ast.TypeSpec); ok {
+					if st, ok := ts.Type.(*ast.StructType); ok {
+						named[st] = ts
+					}
+				}
+				return true
+			})
+			ast.Inspect(file, func(nd ast.Node) bool {
+				st, ok := nd.(*ast.StructType)
+				if !ok || st.Fields == nil {
+					return true
+				}
+				embeds, attr := "", ""
+				for _, fld := range st.Fields.List {
+					if len(fld.Names) == 0 {
+						if tv, ok := pk.TypesInfo.Types[fld.Type]; ok {
+							switch t := tv.Type.String(); t {
+							case "mellium.im/xmpp/stanza.IQ", "mellium.im/xmpp/stanza.Message", "mellium.im/xmpp/stanza.Presence":
+								embeds = t
+							}
+						}
+						continue
+					}
+					if fld.Tag == nil {
+						continue
+					}
+					tag := reflect.StructTag(strings.Trim(fld.Tag.Value, "`")).Get("xml")
+					for _, opt := range strings.Split(tag, ",")[1:] {
+						if opt == "attr" && attr == "" {
+							attr = fld.Names[0].Name
+						}
+					}
+				}
+				if embeds == "" {
+					return true
+				}
+				n++
+				if attr == "" {
+					return true
+				}
+				name, ok2, why := "unnamed struct with field "+attr, false, "a struct type without a name cannot have an UnmarshalXML: field "+attr+" is read from the attributes of the stanza element, not of the payload"
+				if ts := named[st]; ts != nil {
+					name = ts.Name.Name
+					why = "type " + name + " has no UnmarshalXML of its own: encoding/xml looks for " + attr + " among the attributes of the stanza element, where the type's encoder does not write it"
+					if obj := pk.Types.Scope().Lookup(ts.Name.Name); obj != nil {
+						if nt, ok := obj.Type().(*types.Named); ok {
+							for i := 0; i < nt.NumMethods(); i++ {
+								if nt.Method(i).Name() == "UnmarshalXML" {
+									ok2, why = true, ""
+								}
+							}
+						}
+					}
+				}
+				c.r.CheckNamed(id, strings.TrimPrefix(pk.PkgPath, "mellium.im/xmpp/"), "payload attributes of "+name, "K: a struct that embeds a stanza type and declares attribute fields beside it decodes them itself (UnmarshalXML on the type)", st.Pos(), ok2, why)
+				return true
+			})
+		}
 	}
 	return n
 }
